@@ -112,3 +112,26 @@ def applyPostings (bal : String → String → Int) : List TxPosting → Option 
       applyPostings b2 ps
 
 end Ledger.Machine
+
+namespace Ledger.Machine
+
+/-- The resolved environment binds the variables of the generated script to the
+    fields of the postings (decidable; evaluated on every generated case by the
+    `postings` handler). -/
+def txEnvOK (env : Env) (accs : List String) (mons : List (String × Int)) : List TxPosting → Bool
+  | [] => true
+  | p :: ps =>
+    (match evalExpr env (.var (monVar (indexOfMon mons p.asset p.amount))) with
+     | .ok (.monetary a (some v)) => a = p.asset && v = p.amount
+     | _ => false) &&
+    (p.source = "world" ||
+      match evalExpr env (.var (accVar (indexOfStr accs p.source))) with
+      | .ok (.account a) => a = p.source
+      | _ => false) &&
+    (p.destination = "world" ||
+      match evalExpr env (.var (accVar (indexOfStr accs p.destination))) with
+      | .ok (.account a) => a = p.destination
+      | _ => false) &&
+    txEnvOK env accs mons ps
+
+end Ledger.Machine
